@@ -2,7 +2,7 @@
 gcl.mk_assign on system descriptions and logs one event per operation.  Projection only: no verdict is computed here.
 
 usage:  python -m harness.drivers.x06 replay   <vectors.ndjson> <behaviours.ndjson> <out.ndjson> <seed> <max goal events> <tid0> <scratch>
-        python -m harness.drivers.x06 examples <out.ndjson> <seed> <max goal events per example> <tid0>
+        python -m harness.drivers.x06 examples <out.ndjson> <seed> <max goal events per example> <tid0> <share of hinted tuples with N = 3>
         python -m harness.drivers.x06 random   <out.ndjson> <seed> <sessions> <tid0> <scratch>
         python -m harness.drivers.x06 one      <event.json> <out.ndjson> <scratch>         (re-run the input of one recorded event)
 
@@ -204,12 +204,20 @@ class Runner:
         ev = {"kind": "load", "key": key, "N": N, "hassrc": sysd is not None}
         if sysd is not None:
             ev["src"] = {k: sysd[k] for k in ("vars", "enum", "rules", "invs")}
+        empty = {"vars": [], "enum": [], "rules": [], "invs": [], "shown": {"guards": [], "asgs": [], "invs": [], "skipped": 0}}
         try:
             s = loader()
+        except Exception as e:
+            ev.update(empty)
+            ev.update({"outcome": "exc:" + type(e).__name__, "msg": str(e)[:200]})
+            self.emit(ev)
+            return None, None
+        try:
             p = self.proj_sys(s)
         except Exception as e:
-            ev.update({"outcome": "exc:" + type(e).__name__, "vars": [], "enum": [], "rules": [], "invs": [],
-                       "shown": {"guards": [], "asgs": [], "invs": [], "skipped": 0}, "msg": str(e)[:200]})
+            # the loaded object does not have the attributes this driver reads: not observable (no clause is judged)
+            ev.update(empty)
+            ev.update({"outcome": "unobservable", "msg": "%s: %s" % (type(e).__name__, str(e)[:200])})
             self.emit(ev)
             return None, None
         ev.update({"outcome": "ok", "vars": p["vars"], "enum": p["enum"], "rules": p["rules"], "invs": p["invs"],
@@ -355,10 +363,12 @@ def replay(vec_path, beh_path, out_path, seed, max_goals, tid0, scratch):
     R.close()
 
 
-def examples(out_path, seed, max_goals, tid0):
+def examples(out_path, seed, max_goals, tid0, n3_share="1.0"):
+    """the two files of paraverifier/examples: their hint files and further tuples; mutual_ex with 3 processes for a seeded
+    share of the hinted tuples (all of them in the thorough tier), 2 otherwise"""
     rng = random.Random(int(seed))
     R = Runner(out_path, tid0, None)
-    for name, N in (("mutual_ex", 3), ("german", 2)):
+    for name, N in (("mutual_ex", 2), ("german", 2)):
         s, p = R.ev_load("load|file:" + name, N, None, lambda: R.load_file(name))
         if s is None:
             continue
@@ -372,8 +382,9 @@ def examples(out_path, seed, max_goals, tid0):
         except Exception:
             traceback.print_exc()
         rest = [t for t in all_tuples(p) if t not in tups]
-        for t in tups + sample(rng, rest, int(max_goals)):
-            R.ev_goal("goal|file:%s|%s" % (name, tup_key(t)), N, s, p, t)
+        for n, t in enumerate(tups + sample(rng, rest, int(max_goals))):
+            n_here = 3 if name == "mutual_ex" and n < len(tups) and rng.random() < float(n3_share) else N
+            R.ev_goal("goal|file:%s|%s" % (name, tup_key(t)), n_here, s, p, t)
         R.ev_enc("enc|file:" + name, N, s, p)
     R.close()
 
@@ -609,7 +620,7 @@ if __name__ == "__main__":
     if mode == "replay":
         replay(*sys.argv[2:9])
     elif mode == "examples":
-        examples(*sys.argv[2:6])
+        examples(*sys.argv[2:7])
     elif mode == "random":
         random_sessions(*sys.argv[2:7])
     elif mode == "one":
